@@ -12,7 +12,7 @@
 from .. import ir
 from ..paths import paths, walk
 from ..report import AnalysisError
-from .common import const_value, new_items
+from .common import gate_on, const_value, new_items
 
 META = {
     "explanation": "PAIR/typestate over every path of RiverMetricToLossFunction.__call__ and of both probe arms of the "
@@ -190,12 +190,13 @@ def check(run):
                   f"{ir.show_nl(rv)}", "returns metric.get() * sign")
     if all_ok:
         run.ok("PAIR", "call.pair", f"{len(ps)} paths: update(A); get(); revert(A) with identical argument terms")
-    # ---- validator -------------------------------------------------------------------------------------
-    v = prog.summarise_func(VALIDATOR)
-    vq = VALIDATOR.rsplit(".", 1)[1]
+    # ---- validator (analysed through the public entry point, with the probing helper inlined) ------------
+    DISPATCH = "ixai.utils.validators.loss.validate_loss_function"
+    v = prog.summarise_func(DISPATCH)
+    vq = "validate_loss_function"
     run.analysed_fn(vq)
-    m, vfn = prog.func(VALIDATOR)
-    vm = ("param", vfn.args.args[0].arg)
+    _, dfn = prog.func(DISPATCH)
+    vm = ("param", dfn.args.args[0].arg)
     tries = [ev for ev, _ in walk(v.events, structural=True) if isinstance(ev, ir.Try)]
     run.need(len(tries) == 1, "validator no longer probes inside one try")
     arms = [("scalar", tries[0].body)] + [("handler:" + "/".join(h.exc), h.body) for h in tries[0].handlers]
@@ -226,17 +227,23 @@ def check(run):
                       f"{name}: dict_input_metric={is_dict}")
     run.need(n_arms >= 2, "validator has fewer than two probe arms")
     # ---- validate_loss_function dispatch ---------------------------------------------------------------
-    d = prog.summarise_func("ixai.utils.validators.loss.validate_loss_function")
-    run.analysed_fn("validate_loss_function")
-    _, dfn = prog.func("ixai.utils.validators.loss.validate_loss_function")
-    lp = ("param", dfn.args.args[0].arg)
-    r = d.ret
-    ok = r[0] == "gate" and r[1] == ("fn", "isinstance", (lp, ("global", "river.metrics.base.Metric"))) and \
-        r[2][0] == "res" and r[2][2] == VALIDATOR and dict(r[2][4]).get(vfn.args.args[0].arg, r[2][3][0] if r[2][3] else None) == lp \
-        and r[3] == lp
-    run.check(ok, "AGREE", "dispatch", f"{d.path}:{d.fn.lineno}", "validate_loss_function", f"returns {ir.show_nl(r)[:160]}",
+    r = v.ret
+    sel = gate_on(r, ("fn", "isinstance", (vm, ("global", "river.metrics.base.Metric"))))
+    adapters = {ev.res for ev, _ in walk(v.events) if isinstance(ev, ir.Construct) and ev.qual == cls.qual}
+    ok = sel is not None and sel[1] == vm and all(
+        x in adapters or x in (ir.RAISES, ("raise",)) for x in _leaves(sel[0]))
+    run.check(ok, "AGREE", "dispatch", f"{v.path}:{v.fn.lineno}", "validate_loss_function", f"returns {ir.show_nl(r)[:160]}",
               f"river Metric instances must be converted and any other callable returned unchanged; found {ir.show_nl(r)[:200]}",
               "isinstance(loss, Metric) ? adapter(loss) : loss")
+
+
+def _leaves(t):
+    """Values a returned term can take (through selections and try/except merges)."""
+    if t[0] == "gate":
+        return _leaves(t[2]) + _leaves(t[3])
+    if t[0] == "tryret":
+        return [x for r in t[2] for x in _leaves(r)]
+    return [t]
 
 
 _R = "ixai/utils/wrappers/river.py"
